@@ -151,6 +151,16 @@ Theorem C03_derive_validation : forall d ok ops,
   b_stream b > 127 \/ b_item b = ItemErr \/ (b_w b = true /\ b_fn b mod 2 = 0).
 Proof. exact derive_build_rejects_iff. Qed.
 
+(** ... and with only session-id / system-bytes overrides it IS the re-stamp chain (for every
+    chain): bytes 2-5 and the body are those of the source message *)
+Theorem C03_derive_restamp : forall ops d,
+  hdr_ok (d_hdr d) -> h4 (d_hdr d) = 0 -> h5 (d_hdr d) = 0 ->
+  (wait_bit (d_hdr d) = true -> function_of (d_hdr d) mod 2 <> 0) ->
+  Forall bop_ok ops ->
+  derive_build d true ops = Ok (fold_left stamp_d (map stamp_of_bop ops) d).
+Proof. exact derive_build_stamps. Qed.
+Print Assumptions C03_derive_restamp.
+
 (** system bytes <-> message id *)
 Theorem C03_system_bytes_id : forall id, 0 <= id < 4294967296 -> from_system_bytes (to_system_bytes id) = id.
 Proof. exact system_bytes_roundtrip. Qed.
